@@ -268,7 +268,10 @@ S_objObject == <<91, 111, 98, 106, 101, 99, 116, 32, 79, 98, 106, 101, 99, 116, 
 RECURSIVE OnChain(_, _, _)
 OnChain(H, o, x) == o # 0 /\ (o = x \/ OnChain(H, H[o].proto, x))
 M_toString(st, o, args) ==                                                    \* 15.4.4.2
-    IF OnChain(st.H, o, 2) THEN M_join(st, o, <<>>)                             \* steps 2, 4
+    \* steps 2, 4: join is called with an EMPTY argument list.  Deviation (recorded by property C14):
+    \* builtinArrayToString forwards its own arguments, so toString("-") joins with "-"
+    IF OnChain(st.H, o, 2)
+    THEN M_join(st, o, IF D("D14_array_toString_forwards_arguments") THEN args ELSE <<>>)
     ELSE Ret(st, StrV(S_objObject))                                             \* step 3 (15.2.4.2 on an Object)
 
 -----------------------------------------------------------------------------
